@@ -353,4 +353,4 @@ def run(ctx):
                      'real-solver covering subset; every case compares all '
                      'gradient entries with the exact reference derivative'
                      % (1 if q else 2),
-                time_cap=ctx.budget or (150 if q else 2400), chunksize=1)
+                time_cap=ctx.budget or (600 if q else 4800), chunksize=1)
